@@ -21,33 +21,145 @@ def _norm_b64(root):
                 el.text = "bad-b64:" + t
 
 
-def canon_view(data):
-    """canonical protected content of an XML document, or None if it is not well-formed XML"""
+def _canon(xml_bytes):
+    root = ET.fromstring(xml_bytes)
+    _norm_b64(root)
+    return ET.canonicalize(xml_data=ET.tostring(root, encoding="unicode"), with_comments=False)
+
+
+def _clean(data):
+    """drop what is outside the canonical form and outside the document: BOM / bytes before the first tag, the XML declaration,
+    comments; so that damage confined to those (which a tolerant parser ignores) does not make this reader stricter than the format"""
+    i = data.find(b"<")
+    if i > 0:
+        data = data[i:]
+    data = re.sub(rb"\A<\?xml[^>]*\?>", b"", data, count=1)
+    return re.sub(rb"<!-.*?-->", b"", data, flags=re.S)      # "<!-" can only open a comment
+
+
+def _el(name):
+    return rb"<((?:[A-Za-z_][\w.-]*:)?)" + name + rb"(?=[\s>/])"
+
+
+def _find_elem(data, name, start=0, last_close=False):
+    """(start, end, prefix) of the first element with this local name (textual scan; nested same-name elements: set last_close)"""
+    m = re.compile(_el(name)).search(data, start)
+    if not m:
+        return None
+    close = b"</" + m.group(1) + name + b">"
+    e = data.rfind(close) if last_close else data.find(close, m.end())
+    if e < 0:
+        return None
+    return m.start(), e + len(close), m.group(1)
+
+
+def _wrap(frag, prefix, ns="http://www.w3.org/2000/09/xmldsig#"):
+    if prefix:
+        return b"<" + prefix + b"W xmlns:" + prefix[:-1] + b"=\"" + ns.encode() + b"\">" + frag + b"</" + prefix + b"W>"
+    return b"<W xmlns=\"" + ns.encode() + b"\">" + frag + b"</W>"
+
+
+def canon_view(data, depth=0):
+    """protected content of a document carrying an (enveloped or stand-alone) XML signature:
+      - the document without the outermost Signature element (enveloped-signature transform), canonical, comments dropped;
+      - of the outermost Signature: SignedInfo (what SignatureValue signs), SignatureValue, every X509Certificate directly in its
+        KeyInfo/X509Data (chain-protected), every Object (referenced by SignedInfo in OPC signatures);
+      - a ClickOnce licence (r:license inside KeyInfo/msrel:RelData) whole: it is the enveloped-signed Authenticode part.
+    KeyInfo wrappers, KeyValue and the Signature element's own attributes are not covered by an XML signature.
+    None if one of the protected parts is not well-formed XML."""
     try:
-        if data[:3] == b"\xef\xbb\xbf":
-            data = data[3:]
-        # the XML declaration and comments are outside the canonical form: drop them before parsing so that damage confined
-        # to them (which a tolerant parser ignores) does not make the reference reader stricter than the format
-        data = re.sub(rb"\A\s*<\?xml[^>]*\?>", b"", data, count=1)
-        data = re.sub(rb"<!-.*?-->", b"", data, flags=re.S)      # "<!-" can only open a comment
-        root = ET.fromstring(data)
-        _norm_b64(root)
-        txt = ET.tostring(root, encoding="unicode")
-        return ("xml", ET.canonicalize(xml_data=txt, with_comments=False))
+        data = _clean(bytes(data))
+        sig = _find_elem(data, b"Signature", last_close=True)
+        if sig is None:
+            return None
+        s, e, pfx = sig
+        body = data[s:e]
+        depth = depth + 0
+        doc = data[:s] + data[e:]
+        v_doc = None
+        if doc.strip():
+            # bytes after the end tag of the root element are not part of the document
+            m = re.match(rb"\s*<([A-Za-z_][\w.:-]*)", doc)
+            if m:
+                close = b"</" + m.group(1) + b">"
+                j = doc.rfind(close)
+                if j >= 0:
+                    doc = doc[:j + len(close)]
+            v_doc = _canon(doc)
+        inner = body[body.find(b">") + 1:]
+        lic = _find_elem(inner, b"license")
+        v_lic = None
+        outer = inner
+        if lic:
+            # the licence is itself a document with an enveloped signature (the Authenticode one): same rules, one level down
+            v_lic = canon_view(inner[lic[0]:lic[1]], depth + 1) if depth == 0 else None
+            if v_lic is None:
+                return None
+            outer = inner[:lic[0]] + inner[lic[1]:]
+        si = _find_elem(outer, b"SignedInfo")
+        sv = _find_elem(outer, b"SignatureValue")
+        if si is None or sv is None:
+            return None
+        v_si = _canon(_wrap(outer[si[0]:si[1]], pfx))
+        v_sv = _canon(_wrap(outer[sv[0]:sv[1]], pfx))
+        certs = []
+        for m in re.finditer(_el(b"X509Certificate") + rb"[^>]*>([^<]*)<", outer):
+            t = re.sub(rb"[ \t\r\n]+", b"", m.group(2))
+            try:
+                certs.append(base64.b64decode(t, validate=True))
+            except (binascii.Error, ValueError):
+                certs.append(b"bad:" + t)
+        objs = []
+        pos = 0
+        while True:
+            o = _find_elem(outer, b"Object", pos)
+            if o is None:
+                break
+            objs.append(_canon(_wrap(outer[o[0]:o[1]], pfx)))
+            pos = o[1]
+        return ("xml", v_doc, v_si, v_sv, tuple(certs), tuple(objs), v_lic)
     except (ET.ParseError, ValueError, UnicodeError, LookupError):
         return None
 
 
 def regions(data):
-    """coarse regions for sampling: xml declaration / comments / signature element / the rest"""
+    """regions for sampling and for naming what was hit"""
     r = []
     for m in re.finditer(rb"<\?xml.*?\?>", data, flags=re.S):
         r.append((m.start(), m.end(), "xml-declaration"))
     for m in re.finditer(rb"<!--.*?-->", data, flags=re.S):
         r.append((m.start(), m.end(), "comment"))
-    for m in re.finditer(rb"<(?:\w+:)?Signature[ >].*</(?:\w+:)?Signature>", data, flags=re.S):
-        r.append((m.start(), m.end(), "signature-element"))
-    return fill(r, len(data), "document")
+    sig = _find_elem(data, b"Signature", last_close=True)
+    if sig:
+        s, e, pfx = sig
+        inner_start = data.find(b">", s) + 1
+        r.append((s, inner_start, "signature-start-tag"))
+        lic = _find_elem(data, b"license", inner_start)
+        lo, hi = (lic[0], lic[1]) if lic and lic[1] <= e else (e, e)
+        if lic and lic[1] <= e:
+            r.append((lo, hi, "authenticode-licence"))
+            r.append((hi, e, "signature-other"))
+        for name, label in ((b"SignedInfo", "signed-info"), (b"SignatureValue", "signature-value"), (b"KeyValue", "key-value")):
+            x = _find_elem(data, name, inner_start)
+            if x and x[1] <= lo:
+                r.append((x[0], x[1], label))
+        pos = inner_start
+        while True:
+            o = _find_elem(data, b"Object", pos)
+            if o is None or o[1] > e:
+                break
+            r.append((o[0], o[1], "signed-object"))
+            pos = o[1]
+        for m in re.finditer(_el(b"X509Certificate") + rb"[^>]*>[^<]*<", data[:lo]):
+            if m.start() >= s:
+                r.append((m.start(), m.end(), "x509-certificate"))
+        out = []
+        for a, b2, l in fill(sorted(r), len(data), "document"):
+            if l == "document" and a >= s and b2 <= e:
+                l = "signature-other"
+            out.append((a, b2, l))
+        return out
+    return fill(sorted(r), len(data), "document")
 
 
 def fill(regs, n, label):
